@@ -413,6 +413,16 @@ def num_compare(op, a, b):
     ta, tb = num_term(a), num_term(b)
     if ta is None or tb is None:
         return None
+    # +inf is below nothing and equal only to +inf; nan compares False with everything
+    for x, y, flip in ((a, b, False), (b, a, True)):
+        if isinstance(x, VConst) and isinstance(x.value, float) and x.value != x.value:
+            return op == "NotEq"
+        if isinstance(x, VConst) and isinstance(x.value, float) and x.value == float("inf") and not (isinstance(y, VConst) and isinstance(y.value, float) and y.value == float("inf")):
+            o = {"Lt": "Gt", "Gt": "Lt", "LtE": "GtE", "GtE": "LtE"}.get(op, op) if flip else op
+            if o == "Lt":
+                return False  # inf < y never
+            if o == "GtE":
+                return True   # inf >= y always
     d = (ta - tb).const_value()
     if d is not None:
         return _CMP[op](d, 0)
